@@ -62,8 +62,8 @@ def den_skip(skip_all: list[int], skip: dict[int, list[int]]) -> dict[str, Any]:
 ABSENT, ABSENT_HERE, LENERR, SILENT = ["Absent"], ["AbsentHere"], ["LenErr"], ["Silent"]
 
 
-def ans(k: int, pos: bool, sid: int, drop: bool = False) -> list[Any]:
-    return ["Ans", k, "Pos" if pos else "Neg", OTHER_NRCS[(sid + k) % len(OTHER_NRCS)], drop]
+def ans(k: int, pos: bool, sid: int, drop: bool = False, quiet: bool = False) -> list[Any]:
+    return ["Ans", k, "Pos" if pos else "Neg", OTHER_NRCS[(sid + k) % len(OTHER_NRCS)], drop, quiet]
 
 
 def classes12(sid: int) -> list[list[Any]]:
@@ -71,7 +71,12 @@ def classes12(sid: int) -> list[list[Any]]:
 
 
 def classes6(sid: int) -> list[list[Any]]:
+    """the six classes of MC_ServiceScan!Classes6 (answering at the first / the last probe length)"""
     return [ABSENT, ABSENT_HERE, LENERR, SILENT, ans(1, True, sid), ans(5, False, sid)]
+
+
+def classes7(sid: int) -> list[list[Any]]:
+    return classes6(sid) + [ans(3, True, sid, quiet=True)]
 
 
 def svc_case(ecu: dict[str, Any], sessions: list[int] | None, skip_all: list[int], skip: dict[int, list[int]],
@@ -95,10 +100,14 @@ def packed_ecu(offset: int, drop: bool = False) -> dict[str, Any]:
         svc["1"][str(sid)] = cs[i // 12]
         svc["2"][str(sid)] = cs[i % 12]
         svc["3"][str(sid)] = cs[(i * 5 + 3) % 12]
+        for s in ("1", "2", "3"):
+            c = svc[s][str(sid)]
+            if c[0] == "Ans" and c[1] > 1 and (sid + int(s)) % 4 == 1:
+                svc[s][str(sid)] = c[:5] + [True]  # silent (instead of a length error) below its length
         if drop and sid % 9 == 4:
             for s in ("2", "3"):
                 if svc[s][str(sid)][0] == "Ans":
-                    svc[s][str(sid)] = svc[s][str(sid)][:4] + [True]
+                    svc[s][str(sid)] = svc[s][str(sid)][:4] + [True, svc[s][str(sid)][5]]
     return {"type": "model", "sessions": [1, 2, 3], "sess_read": True, "svc": svc}
 
 
@@ -157,7 +166,7 @@ def svc_abstract(tier: str) -> list[dict[str, Any]]:
     """Every abstract model of the TLC configuration (2 sessions x sids {0x10, 0x50} x classes),
     concretised: all other service ids are Absent."""
     out = []
-    cl = classes6 if tier == "quick" else classes12
+    cl = classes7 if tier == "quick" else classes12
     slots = [(s, sid) for s in (1, 2) for sid in ABSTRACT_SIDS]
     for n, combo in enumerate(itertools.product(*[range(len(cl(sid))) for _, sid in slots])):
         svc: dict[str, dict[str, Any]] = {"1": {}, "2": {}}
